@@ -471,10 +471,12 @@ func (w *World) buildSchema() *graphql.Schema {
 		}
 		return out
 	})
-	v.FieldFunc("slow", func(ctx context.Context, v *View, args struct{ Us int64 }) int64 {
+	// slow behaves like a resolver that does I/O: it takes a while and gives
+	// up with the context's error when the context is cancelled meanwhile.
+	v.FieldFunc("slow", func(ctx context.Context, v *View, args struct{ Us int64 }) (int64, error) {
 		c := w.cells["slow"]
 		if isOracle(ctx) {
-			return c.load().(int64)
+			return c.load().(int64), nil
 		}
 		w.Log.Add(Event{Kind: EvResolve, Tag: v.tag, Cell: "slow"})
 		c.register(ctx)
@@ -489,7 +491,10 @@ func (w *World) buildSchema() *graphql.Schema {
 		}
 		x := c.load().(int64)
 		w.gateAt(ctx, v.tag, "slow", 1)
-		return x
+		if err := ctx.Err(); err != nil {
+			return 0, err
+		}
+		return x, nil
 	})
 	v.FieldFunc("exp", func(ctx context.Context, v *View) int64 {
 		return w.read(ctx, v.tag, "exp").(int64)
